@@ -250,7 +250,16 @@ pub fn run_case(lines: &[String], out: &mut String) {
                             }
                             let req: Result<ClientRequest, tungstenite::Error> =
                                 if let Some(custom) = parse_kv(&hcfg, "custom") {
-                                    let mut b = http::Request::builder().method("GET").uri(uri_s.clone());
+                                    // a request object built by the caller: its method and version are the caller's too
+                                    let ver = match parse_kv(&hcfg, "cversion").unwrap_or("11") {
+                                        "10" => http::Version::HTTP_10,
+                                        "20" => http::Version::HTTP_2,
+                                        _ => http::Version::HTTP_11,
+                                    };
+                                    let mut b = http::Request::builder()
+                                        .method(parse_kv(&hcfg, "cmethod").unwrap_or("GET"))
+                                        .version(ver)
+                                        .uri(uri_s.clone());
                                     for (n, v) in kvlist(custom) {
                                         b = b.header(n.as_str(), http::HeaderValue::from_bytes(&v).unwrap());
                                     }
